@@ -91,7 +91,12 @@ func oracle(c Case) (evid.Info, error) {
 	if c.Construct != "" {
 		info.Classes = append(info.Classes, "construct="+c.Construct)
 	}
-	qDefault, errDefault := parse(frontend.DefaultCypherContext(), c.Text)
+	// The context under test is created first; further default contexts are created and used before it
+	// is (contexts must not share filter state: an application keeps several alive, e.g. one per request).
+	ctx := frontend.DefaultCypherContext()
+	_, _ = parse(frontend.DefaultCypherContext(), "match (n) return n")
+	_ = frontend.DefaultCypherContext()
+	qDefault, errDefault := parse(ctx, c.Text)
 	_, errPlain := parse(frontend.NewContext(), c.Text)
 	acceptedPlain := errPlain == nil
 	if c.Construct != "" {
@@ -338,6 +343,52 @@ func genG4(t *rapid.T) Case {
 		grammar = g
 	}
 	return Case{Src: "g4", Text: grammar.Query(t).Text}
+}
+
+// concurrent default contexts: every goroutine creates its own context and parses its own variant;
+// each must be rejected whatever the interleaving of context creation and use.
+type concCase struct {
+	Variants []Case `json:"variants"`
+}
+
+func genConc(t *rapid.T) concCase {
+	n := rapid.IntRange(2, 6).Draw(t, "n")
+	var c concCase
+	for i := 0; i < n; i++ {
+		c.Variants = append(c.Variants, genInsert(t))
+	}
+	return c
+}
+
+func concOracle(c concCase) (evid.Info, error) {
+	errs := make([]error, len(c.Variants))
+	start := make(chan struct{})
+	done := make(chan int, len(c.Variants))
+	for i := range c.Variants {
+		go func(i int) {
+			ctx := frontend.DefaultCypherContext()
+			<-start
+			_, err := parse(ctx, c.Variants[i].Text)
+			if err == nil {
+				errs[i] = fmt.Errorf("under concurrent use of %d default contexts the query with an inserted %s was accepted: %q", len(c.Variants), c.Variants[i].Construct, c.Variants[i].Text)
+			}
+			done <- i
+		}(i)
+	}
+	close(start)
+	for range c.Variants {
+		<-done
+	}
+	for _, e := range errs {
+		if e != nil {
+			return evid.Info{}, e
+		}
+	}
+	return evid.Info{NonTrivial: true, Classes: []string{fmt.Sprintf("goroutines=%d", len(c.Variants))}}, nil
+}
+
+func TestC09Concurrent(t *testing.T) {
+	evid.Prop(t, "conc", evid.R.N(1500, 10000), genConc, concOracle)
 }
 
 func TestC09Insert(t *testing.T) {
